@@ -3580,3 +3580,202 @@ func init() {
 	}
 	shareRule([]string{"C16"}, registry["C10"].Meta.Rules["C10.17"], "C10.17", func(c *Ctx, r *Result, id string) { narrowingRuleScoped(c, r, id, scope) })
 }
+
+// ---- the direct block is read back over the window it was written into (C15.23 / C02 share) ----
+//
+// writeDirectBlockAt places the objects at buf[dataStart:] and the checksum at buf[len-4:]; readDirectBlockFromFile copies
+// buf[lo:hi] out as the block's data. lo = dataStart (as named linear forms at 8-byte file offsets) and hi - len(buf) = the
+// checksum's position - len(buf): the reader takes every byte the writer may fill and none of the checksum.
+func heapBlockWindowRule(c *Ctx, r *Result, rule string) {
+	wFn, rFn := c.FnOpt("structures.WritableFractalHeap.writeDirectBlockAt"), c.FnOpt("structures.WritableFractalHeap.readDirectBlockFromFile")
+	cons := "structures.WritableFractalHeap.readDirectBlockFromFile~writeDirectBlockAt#data-window"
+	if wFn == nil || rFn == nil {
+		r.Undec(rule, cons, "", "block writer or block reader not found")
+		return
+	}
+	wb, rb := c.FB(wFn), c.FB(rFn)
+	var wLo, wEnd, rLo, rEnd *Lin
+	var at ssa.Instruction
+	instrs(wFn, func(in ssa.Instruction) {
+		call, ok := in.(*ssa.Call)
+		if !ok {
+			return
+		}
+		if b, isB := call.Call.Value.(*ssa.Builtin); isB && b.Name() == "copy" && valueReadsField(call.Call.Args[1], "structures.WritableDirectBlock.Objects", 0) {
+			if sl, isSl := call.Call.Args[0].(*ssa.Slice); isSl && sl.Low != nil {
+				l := wb.lin(sl.Low)
+				wLo = &l
+			}
+		}
+		name := ""
+		if call.Call.IsInvoke() {
+			name = call.Call.Method.Name()
+		} else if f := call.Call.StaticCallee(); f != nil {
+			name = f.Name()
+		}
+		if name == "PutUint32" && len(call.Call.Args) >= 2 {
+			if sl, isSl := call.Call.Args[len(call.Call.Args)-2].(*ssa.Slice); isSl && sl.Low != nil {
+				if cs, isCall := stripConv(call.Call.Args[len(call.Call.Args)-1]).(*ssa.Call); isCall && cs.Call.StaticCallee() != nil && cs.Call.StaticCallee().Name() == "ChecksumIEEE" {
+					l := wb.lin(sl.Low).add(wb.lenLin(sl.X), -1)
+					wEnd = &l
+				}
+			}
+		}
+	})
+	instrs(rFn, func(in ssa.Instruction) {
+		call, ok := in.(*ssa.Call)
+		if !ok {
+			return
+		}
+		if b, isB := call.Call.Value.(*ssa.Builtin); isB && b.Name() == "copy" {
+			if sl, isSl := call.Call.Args[1].(*ssa.Slice); isSl && sl.Low != nil && sl.High != nil {
+				lo := rb.lin(sl.Low)
+				hi := rb.lin(sl.High).add(rb.lenLin(sl.X), -1)
+				rLo, rEnd, at = &lo, &hi, in
+			}
+		}
+	})
+	if wLo == nil || wEnd == nil || rLo == nil || rEnd == nil {
+		r.Undec(rule, cons, c.Pos(rFn.Pos()), "the writer's object copy / checksum position or the reader's data copy was not recognised")
+		return
+	}
+	wl, rl := namedLin(wb, *wLo), namedLin(rb, *rLo)
+	sameLo := len(wl) == len(rl)
+	for k, v := range wl {
+		if rl[k] != v {
+			sameLo = false
+		}
+	}
+	we, re := namedLin(wb, *wEnd), namedLin(rb, *rEnd)
+	sameEnd := len(we) == 1 && len(re) == 1 && we[""] == re[""]
+	r.Check(sameLo, rule, cons+"-start", c.InstrPos(at), fmt.Sprintf("data read from %v; written from %v (8-byte file offsets)", rl, wl))
+	r.Check(sameEnd, rule, cons+"-end", c.InstrPos(at), fmt.Sprintf("data read up to len%+d; the checksum is written at len%+d", re[""], we[""]))
+}
+
+func init() {
+	txt := "the heap block is read back over the window it was written into: readDirectBlockFromFile copies out buf[lo:hi] where lo is the position at which writeDirectBlockAt places the objects (at 8-byte file offsets) and hi is the checksum's position (totalSize-8 or dataEnd-1 drop the last bytes of a block that is filled to capacity: they read as zero after LoadFromFile and the next write-back stores the zeros)"
+	registry["C15"].Meta.Rules["C15.23"] = txt
+	registry["C15"].Rules = append(registry["C15"].Rules, func(c *Ctx, r *Result) { heapBlockWindowRule(c, r, "C15.23") })
+	shareRule([]string{"C02", "C10"}, txt, "C15.23", func(c *Ctx, r *Result, id string) { heapBlockWindowRule(c, r, id) })
+}
+
+// ---- C15.24: the offset that goes into the heap ID is the offset that was tested; C15.25: Get returns fresh memory ----
+func heapIDOffsetTestedRule(c *Ctx, r *Result, rule string) {
+	n := 0
+	for _, fn := range c.LibFuncs() {
+		if !strings.HasPrefix(c.Name(fn), "structures.WritableFractalHeap.") || fn.Blocks == nil {
+			continue
+		}
+		var enc []*ssa.Call
+		var tested []ssa.Value
+		for _, site := range callsIn(fn) {
+			call, ok := site.(*ssa.Call)
+			if !ok {
+				continue
+			}
+			switch c.calleeName(site) {
+			case "structures.WritableFractalHeap.encodeHeapID":
+				enc = append(enc, call)
+			case "structures.WritableFractalHeap.addressable":
+				tested = append(tested, call.Call.Args[len(call.Call.Args)-1])
+			}
+		}
+		if len(enc) == 0 {
+			continue
+		}
+		fb := c.FB(fn)
+		for i, e := range enc {
+			n++
+			off := e.Call.Args[len(e.Call.Args)-2]
+			ok := false
+			for _, t := range tested {
+				if t == off || sameByName(fb, fb.lin(t), fb.lin(off)) {
+					ok = true
+				}
+			}
+			cons := fmt.Sprintf("%s#encoded-offset-was-tested-%d", c.Name(fn), i+1)
+			if !ok {
+				// offsets merged from several paths are not compared
+				hasPhi := false
+				for sym := range fb.lin(off).T {
+					if _, isPhi := sym.(*ssa.Phi); isPhi {
+						hasPhi = true
+					}
+				}
+				for _, t := range tested {
+					for sym := range fb.lin(t).T {
+						if _, isPhi := sym.(*ssa.Phi); isPhi {
+							hasPhi = true
+						}
+					}
+				}
+				if hasPhi || len(tested) == 0 {
+					r.Undec(rule, cons, c.InstrPos(e), "the encoded or the tested offset is merged from several paths; not compared")
+					continue
+				}
+			}
+			r.Check(ok, rule, cons, c.InstrPos(e), "the offset handed to encodeHeapID is one that addressable() was asked about in this function")
+		}
+	}
+	if n < 2 {
+		r.Shortfall(c, rule, fmt.Sprintf("%s: only %d calls of encodeHeapID in the heap's insert functions", rule, n))
+	}
+}
+
+func heapGetFreshRule(c *Ctx, r *Result, rule string) {
+	n := 0
+	for _, name := range []string{"getObjectFromDirect", "getObjectFromIndirect"} {
+		fn := c.FnOpt("structures.WritableFractalHeap." + name)
+		if fn == nil {
+			r.Undec(rule, "structures.WritableFractalHeap."+name+"#returns-fresh-memory", "", "function not found")
+			continue
+		}
+		k := 0
+		for _, ret := range returnsOf(fn) {
+			if len(ret.Results) == 0 {
+				continue
+			}
+			v := retOperand(ret, 0)
+			if isNilConst(v) {
+				continue
+			}
+			n++
+			k++
+			fresh := false
+			seen := map[ssa.Value]bool{}
+			var walk func(v ssa.Value) bool
+			walk = func(v ssa.Value) bool {
+				if seen[v] {
+					return true
+				}
+				seen[v] = true
+				switch x := v.(type) {
+				case *ssa.MakeSlice:
+					return true
+				case *ssa.Phi:
+					for _, e := range x.Edges {
+						if !isNilConst(e) && !walk(e) {
+							return false
+						}
+					}
+					return true
+				case *ssa.Const:
+					return x.IsNil()
+				}
+				return false
+			}
+			fresh = walk(v)
+			r.Check(fresh, rule, fmt.Sprintf("structures.WritableFractalHeap.%s#returns-fresh-memory-%d", name, k), c.InstrPos(ret), "the bytes handed out are a slice made in this function, not a window into the block's own buffer (which delete zeroes and the next insert overwrites)")
+		}
+	}
+	if n < 2 {
+		r.Shortfall(c, rule, fmt.Sprintf("%s: only %d data returns in the heap's get functions", rule, n))
+	}
+}
+
+func init() {
+	registry["C15"].Meta.Rules["C15.24"] = "the offset that goes into a heap ID is the offset that was tested: in every function of the writable heap that calls encodeHeapID(offset, ..) the same value was handed to addressable() (with the block's own offset - always 0 for the root block - tested instead, the 65th KiB of a heap with 2-byte ID offsets is accepted and its ID wraps onto the first object's)"
+	registry["C15"].Rules = append(registry["C15"].Rules, func(c *Ctx, r *Result) { heapIDOffsetTestedRule(c, r, "C15.24") })
+	registry["C15"].Meta.Rules["C15.25"] = "Get returns the bytes, not the storage: every non-nil []byte returned by getObjectFromDirect / getObjectFromIndirect is made in that function (a window into Objects is zeroed by a later delete and overwritten by an append on the caller's side)"
+	registry["C15"].Rules = append(registry["C15"].Rules, func(c *Ctx, r *Result) { heapGetFreshRule(c, r, "C15.25") })
+}
